@@ -221,8 +221,14 @@ EveryAcceptedFileReachable ==       \* the latest claimant of every key is visib
 DirsOnTheWayAreMaps == reqMaps = Required(k) /\ reqMaps \subseteq maps
 NothingElseAdded == /\ okMaps = Allowed(k) /\ maps \subseteq okMaps
                     /\ \A K \in PresentKeys : K \notin maps /\ Gens(k, Len(RulesAt(k)), K) # <<>>
+\* every stored handle sits under the key made of its file's path relative to the root, extension
+\* dropped iff the call that made it trimmed
+KeyIsRelPath == \A K \in PresentKeys : \A j \in 1..Len(Column(K)) :
+                    K = KeyPath(Column(K)[j].p, CallTrim(Column(K)[j].c))
 FactoryGotPathAndArgs == made = ExpectedMade(k)
-ErrorsAsStated == exc = ExpectedExc(k)          \* NotADirectoryIsValueError, MissingSkipped
+NotADirectoryIsValueError == (k > 0 /\ FailAt(k) # 0) => exc = "ValueError"
+MissingSkipped == (k > 0 /\ FailAt(k) = 0) => exc = "ok"       \* and ColumnsAsStated: the other rules still populate
+ErrorsAsStated == exc = ExpectedExc(k)
 
 \* the same two clauses about conflicts as action properties over one call
 NestKeepsOlderBeneath ==
